@@ -22,13 +22,13 @@ LIB = "src/lib.rs"
 
 # ---------------------------------------------------------------- R-BOUNDS
 m("get-lt-to-le", AV, "    pub fn get(&self, index: usize) -> Option<ElementRef<Traits, M>>{\n        if index < self.len(){",
-  "    pub fn get(&self, index: usize) -> Option<ElementRef<Traits, M>>{\n        if index <= self.len(){", ["C01", "C13"], "R-BOUNDS:any_vec::AnyVec::<Traits, M>::get:unchecked-access")
+  "    pub fn get(&self, index: usize) -> Option<ElementRef<Traits, M>>{\n        if index <= self.len(){", ["C01", "C13"], "R-BOUNDS:any_vec::AnyVec::get:unchecked-access")
 m("remove-no-index-check", AV, "    pub fn remove(&mut self, index: usize) -> Remove<Traits, M> {\n        self.raw.index_check(index);",
-  "    pub fn remove(&mut self, index: usize) -> Remove<Traits, M> {", ["C01"], "R-BOUNDS:any_vec::AnyVec::<Traits, M>::remove:ctor:Remove")
-m("insert-assert-dropped", RAW, '        assert!(index <= self.len, "Index out of range!");\n', "", ["C01"], "R-BOUNDS:any_vec_raw::AnyVecRaw::<M>::insert_unchecked:shift-guard")
+  "    pub fn remove(&mut self, index: usize) -> Remove<Traits, M> {", ["C01"], "R-BOUNDS:any_vec::AnyVec::remove:ctor:Remove")
+m("insert-assert-dropped", RAW, '        assert!(index <= self.len, "Index out of range!");\n', "", ["C01"], "R-BOUNDS:any_vec_raw::AnyVecRaw::insert_unchecked:shift-guard")
 m("into-range-end-assert-dropped", LIB, "    assert!(end <= len);\n", "", ["C02"], "ctor:Drain")
 m("typed-swap-remove-no-check", "src/any_vec_typed.rs", "    pub fn swap_remove(&mut self, index: usize) -> T {\n        self.this().index_check(index);",
-  "    pub fn swap_remove(&mut self, index: usize) -> T {", ["C01"], "R-BOUNDS:any_vec_typed::AnyVecTyped::<'a, T, M>::swap_remove:ctor:SwapRemove")
+  "    pub fn swap_remove(&mut self, index: usize) -> T {", ["C01"], "R-BOUNDS:any_vec_typed::AnyVecTyped::swap_remove:ctor:SwapRemove")
 m("pop-guard-inverted-typed", "src/any_vec_typed.rs", "    pub fn pop(&mut self) -> Option<T> {\n        if self.is_empty(){\n            None\n        } else {",
   "    pub fn pop(&mut self) -> Option<T> {\n        if self.capacity() == 0 {\n            None\n        } else {", ["C01"], "ctor:Pop")
 # ---------------------------------------------------------------- R-FORMULA
@@ -63,20 +63,20 @@ m("default-move-into-no-forget", "src/any_value/mod.rs", "        crate::copy_no
 m("lazyclone-override-deleted", "src/any_value/lazy_clone.rs", "    #[inline]\n    unsafe fn move_into<KnownType:'static /*= Unknown*/>(self, out: *mut u8, _bytes_size: usize) {\n        self.value.clone_into(out);\n    }\n", "", ["C09"], "R-FORGET")
 m("tempvalue-move-into-no-forget", "src/ops/temp.rs", "        self.op.consume();\n        mem::forget(self);", "        self.op.consume();", ["C03"], "R-FORGET")
 # ---------------------------------------------------------------- R-TYPEGUARD
-m("push-no-type-check", AV, "    pub fn push<V: AnyValue>(&mut self, value: V) {\n        self.raw.type_check(&value);", "    pub fn push<V: AnyValue>(&mut self, value: V) {", ["C04"], "R-TYPEGUARD:any_vec::AnyVec::<Traits, M>::push")
+m("push-no-type-check", AV, "    pub fn push<V: AnyValue>(&mut self, value: V) {\n        self.raw.type_check(&value);", "    pub fn push<V: AnyValue>(&mut self, value: V) {", ["C04"], "R-TYPEGUARD:any_vec::AnyVec::push")
 m("splice-item-assert-dropped", "src/ops/splice.rs", "                assert_types_equal(type_id, replace_element.value_typeid());\n", "", ["C04"], "R-TYPEGUARD")
 m("swap-assert-dropped", "src/any_value/mod.rs", "        assert_eq!(self.value_typeid(), other.value_typeid());\n", "", ["C04", "C13"], "R-TYPEGUARD:any_value::AnyValueMut::swap")
 m("element-downcast-mut-guard-inverted", "src/element.rs", "    pub fn downcast_mut<T: 'static>(&mut self) -> Option<&'a mut T>{\n        if self.value_typeid() != TypeId::of::<T>(){",
-  "    pub fn downcast_mut<T: 'static>(&mut self) -> Option<&'a mut T>{\n        if self.value_typeid() == TypeId::of::<T>(){", ["C04"], "R-TYPEGUARD:element::ElementPointer::<'a, AnyVecPtr>::downcast_mut")
+  "    pub fn downcast_mut<T: 'static>(&mut self) -> Option<&'a mut T>{\n        if self.value_typeid() == TypeId::of::<T>(){", ["C04"], "R-TYPEGUARD:element::ElementPointer::downcast_mut")
 m("vec-downcast-ref-wrong-type", AV, "    pub fn downcast_ref<T: 'static>(&self) -> Option<AnyVecRef<T, M>> {\n        if self.element_typeid() == TypeId::of::<T>() {",
-  "    pub fn downcast_ref<T: 'static>(&self) -> Option<AnyVecRef<T, M>> {\n        if self.element_typeid() == TypeId::of::<Traits>() {", ["C04"], "R-TYPEGUARD:any_vec::AnyVec::<Traits, M>::downcast_ref")
+  "    pub fn downcast_ref<T: 'static>(&self) -> Option<AnyVecRef<T, M>> {\n        if self.element_typeid() == TypeId::of::<Traits>() {", ["C04"], "R-TYPEGUARD:any_vec::AnyVec::downcast_ref")
 # ---------------------------------------------------------------- R-ORDER
 m("push-reserve-after-pointer", RAW, "        self.reserve_one();\n\n        // Compile time type optimization\n        if !Unknown::is::<V::Type>(){\n            let element = self.mem.as_mut_ptr().cast::<V::Type>().add(self.len) as *mut u8;\n            value.move_into::<V::Type>(element, size_of::<V::Type>());",
   "        // Compile time type optimization\n        if !Unknown::is::<V::Type>(){\n            let element = self.mem.as_mut_ptr().cast::<V::Type>().add(self.len) as *mut u8;\n            self.reserve_one();\n            value.move_into::<V::Type>(element, size_of::<V::Type>());", ["C05"], "P1-stale-pointer")
 m("clear-len-after-destroy", RAW, "        self.len = 0;\n\n        if let Some(drop_fn) = self.drop_fn{\n            unsafe{\n                (drop_fn)(self.mem.as_mut_ptr(), len);\n            }\n        }",
   "        if let Some(drop_fn) = self.drop_fn{\n            unsafe{\n                (drop_fn)(self.mem.as_mut_ptr(), len);\n            }\n        }\n        self.len = 0;", ["C06", "C03"], "P3-destroy-visible")
 m("tempvalue-consume-before-destroy", "src/ops/temp.rs", "    fn drop(&mut self) {\n        unsafe{\n            let drop_fn = self.any_vec_raw().drop_fn;",
-  "    fn drop(&mut self) {\n        self.op.consume();\n        unsafe{\n            let drop_fn = self.any_vec_raw().drop_fn;", ["C06", "C03"], "R-ORDER:<ops::temp::TempValue<Op> as core::ops::Drop>::drop")
+  "    fn drop(&mut self) {\n        self.op.consume();\n        unsafe{\n            let drop_fn = self.any_vec_raw().drop_fn;", ["C06", "C03"], "R-ORDER:<ops::temp::TempValue as core::ops::Drop>::drop")
 m("clone-len-before-clone-fn", RAW, "        // 3. copy/clone\n        {", "        cloned.len = self.len;\n        // 3. copy/clone\n        {", ["C08", "C06"], "P5-clone-len")
 m("insert-len-not-lowered", RAW, "        let len = self.len;\n        self.len = index;\n", "        let len = self.len;\n", ["C06"], "P2-torn-state")
 # ---------------------------------------------------------------- R-LENLOWER
@@ -96,13 +96,13 @@ m("next-advances-on-none", "src/iter.rs", "        if self.index == self.end{\n 
 # ---------------------------------------------------------------- P15 / P16 / R-SIG
 m("anyvec-send-without-traits-send", AV, "unsafe impl<Traits: ?Sized + Send + Trait, M: MemBuilder + Send> Send for AnyVec<Traits, M>", "unsafe impl<Traits: ?Sized + Trait, M: MemBuilder + Send> Send for AnyVec<Traits, M>", ["C15"], "P15:AnyVec:Send")
 m("typed-sync-without-t-sync", "src/any_vec_typed.rs", "unsafe impl<'a, T: 'static + Sync, M: MemBuilder + Sync> Sync for AnyVecTyped<'a, T, M>", "unsafe impl<'a, T: 'static, M: MemBuilder + Sync> Sync for AnyVecTyped<'a, T, M>", ["C15"], "P15:AnyVec")
-m("remove-takes-shared-self", AV, "    pub fn remove(&mut self, index: usize) -> Remove<Traits, M> {", "    pub fn remove(&self, index: usize) -> Remove<Traits, M> {", ["C16"], "any_vec::AnyVec::<Traits, M>::remove")
-m("iter-mut-takes-shared-self", AV, "    pub fn iter_mut(&mut self) -> IterMut<Traits, M>{", "    pub fn iter_mut(&self) -> IterMut<Traits, M>{", ["C16"], "any_vec::AnyVec::<Traits, M>::iter_mut")
+m("remove-takes-shared-self", AV, "    pub fn remove(&mut self, index: usize) -> Remove<Traits, M> {", "    pub fn remove(&self, index: usize) -> Remove<Traits, M> {", ["C16"], "any_vec::AnyVec::remove")
+m("iter-mut-takes-shared-self", AV, "    pub fn iter_mut(&mut self) -> IterMut<Traits, M>{", "    pub fn iter_mut(&self) -> IterMut<Traits, M>{", ["C16"], "any_vec::AnyVec::iter_mut")
 # ---------------------------------------------------------------- R-HEAP / R-ARITH / R-ALLOCCONFINED / R-CONFIG
 m("realloc-with-new-layout-as-old", "src/mem/heap.rs", "                                self.mem.as_ptr(), mem_layout,new_mem_size", "                                self.mem.as_ptr(), new_mem_layout,new_mem_size", ["C18"], "realloc-old-layout")
 m("dealloc-skipped", "src/mem/heap.rs", "                        dealloc(self.mem.as_ptr(), mem_layout);\n", "", ["C18"], "R-HEAP")
 m("checked-mul-to-plain", "src/mem/heap.rs", "                        let new_mem_size = self.element_layout.size()\n                            .checked_mul(new_size).unwrap();", "                        let new_mem_size = self.element_layout.size() * new_size;", ["C18"], "R-HEAP")
-m("reserve-plain-add", RAW, "    pub fn reserve(&mut self, additional: usize) {\n        let new_len = self.len.checked_add(additional)\n            .expect(\"capacity overflow\");", "    pub fn reserve(&mut self, additional: usize) {\n        let new_len = self.len + additional;", ["C10"], "R-ARITH:any_vec_raw::AnyVecRaw::<M>::reserve")
+m("reserve-plain-add", RAW, "    pub fn reserve(&mut self, additional: usize) {\n        let new_len = self.len.checked_add(additional)\n            .expect(\"capacity overflow\");", "    pub fn reserve(&mut self, additional: usize) {\n        let new_len = self.len + additional;", ["C10"], "R-ARITH:any_vec_raw::AnyVecRaw::reserve")
 m("alloc-fast-path-in-push", AV, "    pub fn push<V: AnyValue>(&mut self, value: V) {\n        self.raw.type_check(&value);",
   "    pub fn push<V: AnyValue>(&mut self, value: V) {\n        #[cfg(feature=\"alloc\")]\n        { if self.len() == usize::MAX { return; } }\n        self.raw.type_check(&value);", ["C19"], "body-differs")
 
